@@ -7,13 +7,25 @@
 //! Lean lexer model. Panic / signal / abort / stack overflow / timeout are
 //! violations of the property on the real code, keyed by crash site.
 //!
-//! usage: c06 run <seed> <quick|thorough>
+//! Every single-file input is also parsed by the real parser (hook
+//! `parse_probe`) and by the Lean model of the parser (`c06 parse`), and the two
+//! one-line results (tree shape or error kind + span, and the whole span table)
+//! are compared: see `../c06/parse_diff.rs`.
+//!
+//! usage: c06 run <seed> <quick|thorough> [--parse-strict]
 //!        c06 replay <json input>
-//!        c06 worker gen <seed> <from> <n> | c06 worker corpus <from> <n> | c06 worker boundary <from> <n> | c06 worker one <json>
+//!        c06 parse-replay <json string: the source text>
+//!        c06 worker gen <seed> <from> <n> | c06 worker corpus <from> <n> | c06 worker boundary <from> <n>
+//!                 | c06 worker parsereps <from> <n> | c06 worker one <json>
+//!
+//! `C06_PARSE_STRICT=1` (or `--parse-strict`): a driver without a parser model
+//! (`bad-op`) is a model mismatch instead of being counted only.
 
 #[path = "../c06/generate.rs"]
 mod generate;
 use generate as g;
+#[path = "../c06/parse_diff.rs"]
+mod parse_diff;
 
 use generate::{Case, CaseFile};
 use roto::verif_hooks::c06::{char_flags, lex_all, report_locations, report_stage};
@@ -111,7 +123,7 @@ fn stage(name: &str) {
 }
 
 /// Compile one case stage by stage; returns the outcome bucket.
-fn run_case(rt: &Runtime<roto::NoCtx>, case: &Case, drv: Option<&mut Driver>, rep: &mut Report, idx: u64) {
+fn run_case(rt: &Runtime<roto::NoCtx>, case: &Case, mut drv: Option<&mut Driver>, rep: &mut Report, idx: u64) {
     rep.evaluations += 1;
     let input = case.to_json();
     rep.hist("generator", case.kind.clone());
@@ -163,7 +175,13 @@ fn run_case(rt: &Runtime<roto::NoCtx>, case: &Case, drv: Option<&mut Driver>, re
             }
         }
     }
-    if let Some(drv) = drv {
+    // the token stream of a single-file input, for the parser differential
+    let parse_toks: Option<Vec<parse_diff::Tok>> = if case.files.len() == 1 {
+        LEXED.with(|l| l.borrow().first().map(|x| x.1.clone()))
+    } else {
+        None
+    };
+    if let Some(drv) = drv.as_deref_mut() {
         let lexed: Vec<(String, Vec<(String, usize, usize)>)> = LEXED.with(|l| std::mem::take(&mut *l.borrow_mut()));
         for (src, toks) in lexed {
             let real = toks
@@ -290,6 +308,12 @@ fn run_case(rt: &Runtime<roto::NoCtx>, case: &Case, drv: Option<&mut Driver>, re
     if let Some(expect) = &case.expect_cycle {
         // type-declaration cases: the model of the cycle check predicted this
         rep.hist("cycle-check", format!("model={} real={}", expect, outcome));
+    }
+
+    // ---- parser: real parser vs Lean model (single files only; last, so that
+    // a crash of the compiler is attributed to its own stage above)
+    if case.files.len() == 1 {
+        parse_diff::run_one(&case.files[0].src, parse_toks.as_deref(), drv.as_deref_mut(), rep, &input, idx);
     }
 }
 
@@ -418,6 +442,18 @@ fn worker(args: &[String]) {
             let from: usize = args[1].parse().unwrap();
             let n: usize = args[2].parse().unwrap();
             let cases = g::boundary::all();
+            for idx in from..(from + n).min(cases.len()) {
+                println!("START {idx}");
+                let _ = std::io::stdout().flush();
+                mark(true);
+                run_case(&rt, &cases[idx], drv.as_mut(), &mut rep, idx as u64);
+                mark(false);
+            }
+        }
+        "parsereps" => {
+            let from: usize = args[1].parse().unwrap();
+            let n: usize = args[2].parse().unwrap();
+            let cases = parse_diff::representatives();
             for idx in from..(from + n).min(cases.len()) {
                 println!("START {idx}");
                 let _ = std::io::stdout().flush();
@@ -619,8 +655,7 @@ fn run_parallel(
                                 }
                             }
                             if confirmed {
-                                viol(&mut local, &what, &key, input);
-                                local.hist("outcome", format!("DIED: {key}"));
+                                record_death(&mut local, &what, &key, input);
                             }
                             resume = last + 1;
                             // the cases before `last` in this worker ran fine but their
@@ -649,6 +684,26 @@ fn run_parallel(
     });
     let g = Arc::try_unwrap(shared).ok().unwrap().into_inner().unwrap();
     merge(rep, g);
+}
+
+/// A worker died on `input`. While it waited for the Lean model of the parser
+/// (stage `parse-model`: the real parser had already answered) that is the
+/// model's failure, a mismatch; anywhere else the compiler's, a violation.
+fn record_death(rep: &mut Report, what: &str, key: &str, input: Value) {
+    if key.ends_with(" in parse-model") {
+        rep.hist("parse_model", format!("failed: {key}"));
+        if rep.model_mismatches.len() < 200 {
+            rep.model_mismatches.push(json!({
+                "what": "parser: Lean model vs real parser",
+                "key": format!("parse-diff {key}"),
+                "detail": what,
+                "input": input,
+            }));
+        }
+    } else {
+        viol(rep, what, key, input);
+        rep.hist("outcome", format!("DIED: {key}"));
+    }
 }
 
 fn merge(dst: &mut Report, src: Report) {
@@ -734,8 +789,23 @@ fn main() {
                 .and_then(|s| s.parse().ok())
                 .unwrap_or(if thorough { 300_000 } else { 3_000 });
             let jobs = std::thread::available_parallelism().map(|n| n.get()).unwrap_or(4).min(16);
+            if args.iter().any(|a| a == "--parse-strict") {
+                // inherited by the workers; no other thread exists yet
+                unsafe { std::env::set_var("C06_PARSE_STRICT", "1") };
+            }
             let mut rep = Report::default();
-            // corpus first
+            // class representatives of the parser differential first (seed-independent)
+            let preps = parse_diff::representatives();
+            run_parallel("parsereps", seed, preps.len() as u64, 64, jobs, &mut rep, &|i| {
+                preps.get(i as usize).map(|c| c.to_json()).unwrap_or(Value::Null)
+            });
+            rep.notes.push(format!(
+                "parser differential: {} class representatives (one per grammar construct / error site) run first; \
+                 then every single-file input of the corpus, the boundary stream and the random stream{}",
+                preps.len(),
+                if parse_diff::strict() { "; strict (bad-op is a mismatch)" } else { "" }
+            ));
+            // corpus
             let corpus = load_corpus();
             let c2 = corpus.clone_cases();
             run_parallel("corpus", seed, corpus.len() as u64, 8, jobs, &mut rep, &|i| {
@@ -786,15 +856,41 @@ fn main() {
             if !matches!(w.ended, Ended::Ok) {
                 let (what, key) = describe_death(&w);
                 rep.evaluations += 1;
-                viol(&mut rep, &what, &key, serde_json::from_str(&args[2]).unwrap_or(Value::Null));
+                record_death(&mut rep, &what, &key, serde_json::from_str(&args[2]).unwrap_or(Value::Null));
             }
             for v in &rep.impl_violations {
                 println!("violation: {} [{}]", v["what"].as_str().unwrap_or(""), v["key"].as_str().unwrap_or(""));
             }
+            for v in &rep.model_mismatches {
+                println!("mismatch: {} [{}]", v["what"].as_str().unwrap_or(""), v["key"].as_str().unwrap_or(""));
+                if v["real"].is_string() {
+                    println!("  real : {}", v["real"].as_str().unwrap_or(""));
+                    println!("  model: {}", v["model"].as_str().unwrap_or(""));
+                }
+            }
             emit_ascii(&rep);
         }
+        Some("parse-replay") => {
+            // the argument is a JSON string (`"fn f() {}"`); a bare text is taken as it is
+            let arg = args.get(2).cloned().unwrap_or_default();
+            let src = serde_json::from_str::<String>(&arg).unwrap_or(arg);
+            install_panic_hook();
+            let mut drv = Driver::spawn().ok();
+            if drv.is_none() {
+                println!("note : no Lean driver ($ROTOV_DRIVER)");
+            }
+            let d = parse_diff::diff_source(&src, None, drv.as_mut());
+            println!("real : {}", d.real);
+            println!("model: {}", d.model);
+            println!("lits : {}", if d.lits.is_empty() { "-".to_string() } else { d.lits.join(",") });
+            println!("rounds: {}", d.rounds);
+            println!("verdict: {:?}", d.verdict);
+            if d.verdict == parse_diff::Verdict::Different {
+                println!("key  : {}", parse_diff::diff_key(&d.real, &d.model));
+            }
+        }
         _ => {
-            eprintln!("usage: c06 run <seed> <quick|thorough> | c06 replay <json>");
+            eprintln!("usage: c06 run <seed> <quick|thorough> [--parse-strict] | c06 replay <json> | c06 parse-replay <json string>");
             std::process::exit(64);
         }
     }
